@@ -910,7 +910,12 @@ def tokenize(content: str, lenient: bool = False) -> tuple[list[Token], list[Any
                     if "." in matched_text or "e" in matched_text.lower():
                         value = float(matched_text)
                     else:
-                        value = int(matched_text)
+                        try:
+                            value = int(matched_text)
+                        except ValueError as exc:
+                            # CPython refuses to convert integer literals beyond
+                            # sys.int_max_str_digits: report it as a positioned lexer error
+                            raise LexerError(f"Invalid integer literal: {exc}", line, column, "E005") from exc
                     # Store raw lexeme for multi-word value reconstruction
                     raw_lexeme = matched_text
                 elif token_type == TokenType.BOOLEAN:
